@@ -22,7 +22,7 @@ RULE = (
     "array is non-cubic (write-read, interchange) / has more than one voxel (convert); distinct = distinct case descriptions."
 )
 BOUNDS = {
-    "quick": "shapes {1,2,3,5}^3 (64, 60 non-cubic); dtypes float32/float64/int16/int8; ext mrc/rec/em; data_type in "
+    "quick": "shapes {1,2,3,5}^3 (64, 60 non-cubic) plus 9 shapes with one axis of 17/33/47 (thorough: 18 with 17..47); dtypes float32/float64/int16/int8; ext mrc/rec/em; data_type in "
              "{None,float32,float64,int16}; transpose T/F; conversions on shapes {1,2,5}^3 x 7 (direction,dtype) x 2 sources x "
              "invert x 3 names x 4 overwrite situations",
     "thorough": "shapes {1,2,3,5,7,48}^3 (216); conversions on shapes {1,2,3,5,48}^3; otherwise as quick",
@@ -397,6 +397,11 @@ def families(tier, seed):
     shapes = sorted(((x, y, z) for x in sizes for y in sizes for z in sizes), key=lambda s: (s[0] * s[1] * s[2], s))
     csizes = [1, 2, 5] if tier == "quick" else [1, 2, 3, 5, 48]
     cshapes = sorted(((x, y, z) for x in csizes for y in csizes for z in csizes), key=lambda s: (s[0] * s[1] * s[2], s))
+    # one axis longer than 16 / 32 and not a multiple of 16 (slab- or block-wise writers), on every axis position
+    longs = [17, 33, 47] if tier == "quick" else [17, 23, 31, 33, 41, 47]
+    extra = [tuple(L if a == ax else (2, 3, 1)[(a + k) % 3] for a in range(3)) for k, L in enumerate(longs) for ax in range(3)]
+    shapes = shapes + extra
+    cshapes = cshapes + extra[: (6 if tier == "quick" else len(extra))]
     dtypes = ["float32", "float64", "int16", "int8"]
     exts = ["mrc", "rec", "em"]
     dts = [None, "float32", "float64", "int16"]
